@@ -467,6 +467,12 @@ class StmtMixin:
             if t is not None:
                 self.touch(t, kv.z)
                 item = elem_val(v.z[kv.z], v.a['elem'])
+                # prefix lemma of the iteration (sequence theory fact, supplied because both solvers are slow on it):
+                from .sorts import pyslice as _ps
+                t.fact(_ps(v.z, None, kv.z + 1) == Concat(_ps(v.z, None, kv.z), Unit(v.z[kv.z])))
+                t.fact(Length(_ps(v.z, None, kv.z)) == kv.z)
+                for hk in self.reg.attr_hooks:
+                    hk(self, 'seq-item', (v, kv.z, item), t)
                 if v.a.get('lenbounds'):       # summary of the constant table the item is drawn from
                     lo_, hi_ = v.a['lenbounds']
                     t.fact(And(Length(item.z) >= lo_, Length(item.z) <= hi_))
